@@ -27,14 +27,20 @@ func (s *Store) snapshotRevert(revertTo Snapshot) error {
 			" fileNameCurr: %s", revertToFooter.fileName, fileNameCurr)
 	}
 
+	// Any persisted segment gives the file, also one of a child collection
+	// when the top-level collection has none.
+	mref := revertToFooter.anyMmapRef()
+	if mref == nil || mref.fref == nil || mref.fref.file == nil {
+		return fmt.Errorf("revert footer has no persisted segments")
+	}
+
 	persistOptions := StorePersistOptions{}
 	footer, err := s.revertToSnapshot(revertToFooter, persistOptions)
 	if err != nil {
 		return err
 	}
 
-	err = s.persistFooter(revertToFooter.SegmentLocs[0].mref.fref.file, footer,
-		persistOptions)
+	err = s.persistFooter(mref.fref.file, footer, persistOptions)
 	if err != nil {
 		footer.DecRef()
 		return err
@@ -52,13 +58,11 @@ func (s *Store) snapshotRevert(revertTo Snapshot) error {
 
 func (s *Store) revertToSnapshot(revertToFooter *Footer, options StorePersistOptions) (
 	rv *Footer, err error) {
-	if len(revertToFooter.SegmentLocs) <= 0 {
-		return nil, fmt.Errorf("revert footer slocs <= 0")
-	}
-
-	mref := revertToFooter.SegmentLocs[0].mref
-	if mref == nil || mref.fref == nil || mref.fref.file == nil {
-		return nil, fmt.Errorf("revert footer parts nil")
+	// NOTE: A (child) collection may well have no persisted segments.
+	for _, sloc := range revertToFooter.SegmentLocs {
+		if sloc.mref == nil || sloc.mref.fref == nil || sloc.mref.fref.file == nil {
+			return nil, fmt.Errorf("revert footer parts nil")
+		}
 	}
 
 	slocs := append(SegmentLocs{}, revertToFooter.SegmentLocs...)
